@@ -1180,3 +1180,69 @@ def lro_api(rng, name, broken=None):
     api.options = ["transport=grpc", "autogen-snippets=false"]
     api.info.update(pkg=pkg, version=ver, ns=["vp"], name=name, host=f"{name}.googleapis.com")
     return api
+
+
+GRPC_CODES = ["CANCELLED", "UNKNOWN", "INVALID_ARGUMENT", "DEADLINE_EXCEEDED", "NOT_FOUND", "ALREADY_EXISTS", "PERMISSION_DENIED",
+              "RESOURCE_EXHAUSTED", "FAILED_PRECONDITION", "ABORTED", "OUT_OF_RANGE", "UNIMPLEMENTED", "INTERNAL", "UNAVAILABLE",
+              "DATA_LOSS", "UNAUTHENTICATED"]
+
+
+def retry_api(rng, name):
+    """gRPC service-config shapes (C09): several entries, entries naming several methods, timeout with/without
+    retryPolicy, retryPolicy without timeout, fractional / nanosecond durations, same method name in two services."""
+    api = Api(name)
+    tags = api.tags
+    ver = "v1"
+    pkg = f"vp.{name}.{ver}"
+    P = "." + pkg
+    f = File(f"vp/{name}/{ver}/{name}.proto", pkg, deps=list(STD_DEPS))
+    api.add(f)
+    q = f.message("Req")
+    q.field("name", "string")
+    r = f.message("Reply")
+    r.field("ok", "bool")
+    r.field("text", "string")
+    sa = f.service("Alpha", host=f"{name}.googleapis.com")
+    sb = f.service("Beta", host=f"{name}.googleapis.com")
+    names_a = ["Get", "Put", "Scan", "Touch", "Drop", "Peek", "Sync", "Mark"]
+    names_b = ["Get", "Put", "Other"]
+    for n in names_a:
+        sa.rpc(n, P + ".Req", P + ".Reply")
+    for n in names_b:
+        sb.rpc(n, P + ".Req", P + ".Reply")
+    timeouts = rng.sample([5, 12, 20, 33, 47, 60, 75, 90, 120], 6)
+    durs = ["0.1s", "0.5s", "1s", "1.25s", "0.250000000s", "2s", "0.05s"]
+
+    def policy():
+        ini = rng.choice(durs)
+        return {"initialBackoff": ini, "maxBackoff": rng.choice(["1s", "3.500000000s", "10s", "0.2s", "60s"]),
+                "backoffMultiplier": rng.choice([1.0, 1.3, 2, 2.5]), "maxAttempts": rng.choice([3, 5]),
+                "retryableStatusCodes": rng.sample(GRPC_CODES, rng.randint(1, 4))}
+
+    A = f"{pkg}.Alpha"
+    B = f"{pkg}.Beta"
+    cfg = []
+    pool = list(names_a)
+    rng.shuffle(pool)
+    # entry 1: several methods, timeout + retry
+    cfg.append({"name": [{"service": A, "method": pool[0]}, {"service": A, "method": pool[1]}], "timeout": f"{timeouts[0]}s", "retryPolicy": policy()})
+    # entry 2: timeout only (fractional)
+    cfg.append({"name": [{"service": A, "method": pool[2]}], "timeout": f"{timeouts[1]}.5s"})
+    # entry 3: retry only (no timeout)
+    cfg.append({"name": [{"service": A, "method": pool[3]}], "retryPolicy": policy()})
+    # entry 4: nanosecond-suffixed timeout + retry, names a method of Beta with the same name as one of Alpha
+    cfg.append({"name": [{"service": B, "method": "Get"}], "timeout": f"{timeouts[2]}.000000000s", "retryPolicy": policy()})
+    # entry 5: a later duplicate for pool[0] with different values must lose to entry 1
+    cfg.append({"name": [{"service": A, "method": pool[0]}, {"service": A, "method": pool[4]}], "timeout": f"{timeouts[3]}s", "retryPolicy": policy()})
+    # entry 6: names a method that does not exist and a service that does not exist
+    cfg.append({"name": [{"service": A, "method": "Nope"}, {"service": f"{pkg}.Gamma", "method": "Get"}], "timeout": "3s", "retryPolicy": policy()})
+    if rng.random() < 0.5:
+        rng.shuffle(cfg[1:4])
+    # pool[5:], Alpha.Get (unless drawn), Beta.Put, Beta.Other stay unnamed
+    api.aux["retry-config"] = ("retry.json", json.dumps({"methodConfig": cfg}, indent=1))
+    api.info["retry_cfg"] = cfg
+    tags.update(["entry:multi-name", "entry:timeout-only", "entry:retry-only", "entry:ns-duration", "entry:duplicate", "entry:unknown-method",
+                 "same-method-two-services"])
+    api.options = ["transport=grpc", "autogen-snippets=false"]
+    api.info.update(pkg=pkg, version=ver, ns=["vp"], name=name, host=f"{name}.googleapis.com")
+    return api
